@@ -93,6 +93,13 @@ def run_cases(ctx, cases, twin=False, label="", decisive=None):
     return nbad
 
 
+def present(ops, n):
+    for o in reversed(ops):
+        if o["op"] == "update" and o.get("keep"):
+            return o["keep"]
+    return list(range(1, n + 1))
+
+
 def random_cases(ctx, num, nmax, wmax, picks, algos, flips=True, updates=True, stream=0):
     """Seeded random driver (recorded executions beyond the TLC-generated behaviours):
     larger weights and longer runs than the model's bounds."""
@@ -108,12 +115,18 @@ def random_cases(ctx, num, nmax, wmax, picks, algos, flips=True, updates=True, s
         while len(ops) < picks:
             x = rnd.random()
             if x < 0.04 and updates:
-                w = [rnd.randint(lo, wmax) for _ in range(n)]
-                ops.append({"op": "update", "w": w})
+                cur = present(ops, n)
+                keep = [i for i in cur if rnd.random() < 0.8]
+                gone = [i for i in range(1, n + 1) if i not in cur]
+                if gone and rnd.random() < 0.5:
+                    keep.append(rnd.choice(gone))            # at most one backend is (re-)added per reload
+                keep = sorted(keep) or [cur[0]]
+                w = [rnd.randint(lo, wmax) if (i + 1) in keep else 0 for i in range(n)]
+                ops.append({"op": "update", "w": w, "keep": keep})
             elif x < 0.07 and flips:
-                ops.append({"op": "flip", "b": rnd.randint(1, n)})
+                ops.append({"op": "flip", "b": rnd.choice(present(ops, n))})
             elif x < 0.15 and any(a.startswith("wlc") for a in algos):
-                ops.append({"op": "conn", "b": rnd.randint(1, n), "d": 1})
+                ops.append({"op": "conn", "b": rnd.choice(present(ops, n)), "d": 1})
             else:
                 a = rnd.choice(algos)
                 ops.append({"op": "pick", "algo": a, "r": rnd.randint(0, max(0, sum(x for x in w if x > 0) - 1))})
@@ -123,6 +136,7 @@ def random_cases(ctx, num, nmax, wmax, picks, algos, flips=True, updates=True, s
 
 
 def gen(ctx, cfg, defines, mode="mc", num=0, depth=0, timeout=600):
+    defines = dict({"FOCUS": "FALSE"}, **defines)
     r = ctx.tlc("Balancer", "GenSlb", cfg, mode=mode, sim_num=num, sim_depth=depth,
                 defines=defines, timeout=timeout, count=False)
     if not r.ok:
@@ -142,17 +156,22 @@ def check_c01(ctx):
     ctx.cov["constants"]["MC_C01"] = mcd
     ctx.tlc_must_pass("Balancer", "Slb", "MC_C01.cfg", defines=mcd, timeout=1500, coverage=not q)
     cases = []
-    g1 = {"N": 2, "WLO": 0, "WHI": 3, "PICKS": 14, "UPDATES": 1, "OPS": 16, "SCALE": 100} if q else \
-         {"N": 3, "WLO": 0, "WHI": 3, "PICKS": 20, "UPDATES": 1, "OPS": 24, "SCALE": 100}
+    g1 = {"N": 2, "WLO": 0, "WHI": 3, "PICKS": 12, "UPDATES": 1, "OPS": 14, "SCALE": 100} if q else \
+         {"N": 3, "WLO": 0, "WHI": 2, "PICKS": 14, "UPDATES": 1, "OPS": 16, "SCALE": 100}
     ctx.cov["constants"]["Gen_C01_exhaustive"] = g1
     cases += gen(ctx, "Gen_C01.cfg", g1, timeout=1500)
+    # reloads that change one thing only (a removal, one re-addition, one weight), exhaustively for 3 backends
+    g3 = {"N": 3, "WLO": 0, "WHI": 2, "PICKS": 7, "UPDATES": 1, "OPS": 9, "SCALE": 100, "FOCUS": "TRUE"} if q else \
+         {"N": 3, "WLO": 0, "WHI": 3, "PICKS": 10, "UPDATES": 1, "OPS": 12, "SCALE": 100, "FOCUS": "TRUE"}
+    ctx.cov["constants"]["Gen_C01_focus"] = g3
+    cases += gen(ctx, "Gen_C01.cfg", g3, timeout=1500)
     for n, num in ((3, 300), (4, 300)) if q else ((4, 3000), (5, 3000), (6, 2000)):
         g2 = {"N": n, "WLO": 0, "WHI": 4, "PICKS": 30, "UPDATES": 1, "OPS": 34, "SCALE": 100}
         cases += gen(ctx, "Gen_C01.cfg", g2, mode="sim", num=num, depth=40)
     cases += random_cases(ctx, 40 if q else 400, 6, 12 if q else 30, 150 if q else 400, ["smooth"], flips=True)
     ctx.cov["exhaustive"] = False
     run_cases(ctx, cases, twin=True, label="C01",
-              decisive={"Window", "Periodic", "Deterministic", "panic", "hang", "unknown-backend", "ReplyOK"})
+              decisive={"Window", "Periodic", "Deterministic", "FreshDeterministic", "panic", "hang", "unknown-backend", "ReplyOK"})
 
 
 def check_all(ctx, decisive, label):
